@@ -102,7 +102,7 @@ impl<T: Elem + SatisfyTraits<Tr>, M: MX, Tr: TrX + ?Sized> World<T, M, Tr> {
     pub fn build(st: &St, need_b: bool) -> Result<Self, String> {
         let len = st.len as usize;
         let cap = st.cap as usize;
-        let mut a: AnyVec<Tr, M> = match guarded(|| if M::SIZEABLE { M::with_capacity::<T, Tr>(cap) } else { AnyVec::<Tr, M>::new_in::<T>(M::make()) }) {
+        let mut a: AnyVec<Tr, M> = match guarded(|| if M::SIZEABLE { M::with_capacity::<T, Tr>(cap) } else if st.spare == Spare::Pristine { M::new_default::<T, Tr>() } else { AnyVec::<Tr, M>::new_in::<T>(M::make()) }) {
             Ok(a) => a,
             Err(e) => return Err(format!("construction panicked: {e:?}")),
         };
@@ -145,7 +145,7 @@ impl<T: Elem + SatisfyTraits<Tr>, M: MX, Tr: TrX + ?Sized> World<T, M, Tr> {
         if api == Api::Typed {
             let v = T::fresh();
             let id = v.id();
-            let r = guarded(|| { let mut t = a.downcast_mut::<T>().unwrap(); match at { None => t.push(v), Some(i) => t.insert(i, v) } });
+            let r = guarded(|| { let mut t = if at.map_or(false, |i| i % 2 == 1) { unsafe { a.downcast_mut_unchecked::<T>() } } else { a.downcast_mut::<T>().unwrap() }; match at { None => t.push(v), Some(i) => t.insert(i, v) } });
             return (r, Mv::Id(id));
         }
         match src {
@@ -326,7 +326,7 @@ impl<T: Elem + SatisfyTraits<Tr>, M: MX, Tr: TrX + ?Sized> World<T, M, Tr> {
         let mut sfails = Vec::new();
         let r: Result<Option<Option<u16>>, Caught> = match api {
             Api::Typed => guarded(|| {
-                let mut t = a.downcast_mut::<T>().unwrap();
+                let mut t = if idx % 2 == 1 { unsafe { a.downcast_mut_unchecked::<T>() } } else { a.downcast_mut::<T>().unwrap() };
                 let v = match which { 0 => t.pop(), 1 => Some(t.remove(idx)), _ => Some(t.swap_remove(idx)) };
                 v.map(|v| { let id = v.id(); let _w = elem::WindowOff::new(); drop(v); Some(id) })
             }),
@@ -391,12 +391,12 @@ impl<T: Elem + SatisfyTraits<Tr>, M: MX, Tr: TrX + ?Sized> World<T, M, Tr> {
             (Api::Erased, GetKind::At) => { let e = a.at(idx); if !ok { return Some(OOB); } let id = e.downcast_ref::<T>().unwrap().id(); reports(e.value_typeid(), e.size(), elem::id_of_bytes(e.as_bytes()), id, rp); Some(id) }
             (Api::Erased, GetKind::GetMut) => a.get_mut(idx).map(|mut e| { if !ok { return OOB; } let id = e.downcast_mut::<T>().unwrap().id(); reports(e.value_typeid(), e.size(), elem::id_of_bytes(e.as_bytes()), id, rp); id }),
             (Api::Erased, GetKind::AtMut) => { let mut e = a.at_mut(idx); if !ok { return Some(OOB); } let id = e.downcast_mut::<T>().unwrap().id(); reports(e.value_typeid(), e.size(), elem::id_of_bytes(e.as_bytes()), id, rp); Some(id) }
-            (Api::Erased, GetKind::GetUncheckedInRange) => { if idx < a.len() && ok { let e = unsafe { a.get_unchecked(idx) }; Some(e.downcast_ref::<T>().unwrap().id()) } else { None } }
+            (Api::Erased, GetKind::GetUncheckedInRange) => { if idx < a.len() && ok { if idx % 2 == 0 { let e = unsafe { a.get_unchecked(idx) }; Some(unsafe { e.downcast_ref_unchecked::<T>() }.id()) } else { let mut e = unsafe { a.get_unchecked_mut(idx) }; Some(unsafe { e.downcast_mut_unchecked::<T>() }.id()) } } else { None } }
             (Api::Typed, GetKind::Get) => a.downcast_ref::<T>().unwrap().get(idx).map(|t| if ok { t.id() } else { OOB }),
             (Api::Typed, GetKind::At) => { let t = a.downcast_ref::<T>().unwrap().at(idx); Some(if ok { t.id() } else { OOB }) }
             (Api::Typed, GetKind::GetMut) => a.downcast_mut::<T>().unwrap().get_mut(idx).map(|t| if ok { t.id() } else { OOB }),
             (Api::Typed, GetKind::AtMut) => { let t = a.downcast_mut::<T>().unwrap().at_mut(idx); Some(if ok { t.id() } else { OOB }) }
-            (Api::Typed, GetKind::GetUncheckedInRange) => { let t = a.downcast_ref::<T>().unwrap(); if idx < t.len() && ok { Some(unsafe { t.get_unchecked(idx) }.id()) } else { None } }
+            (Api::Typed, GetKind::GetUncheckedInRange) => { if idx % 2 == 0 { let t = unsafe { a.downcast_ref_unchecked::<T>() }; if idx < t.len() && ok { Some(unsafe { t.get_unchecked(idx) }.id()) } else { None } } else { let mut t = a.downcast_mut::<T>().unwrap(); if idx < t.len() && ok { Some(unsafe { t.get_unchecked_mut(idx) }.id()) } else { None } } }
         });
         out.fails.append(&mut rep);
         let panics = matches!(kind, GetKind::At | GetKind::AtMut);
